@@ -422,6 +422,23 @@ const HAND: &[(&str, &[u8])] = &[
 	("hand.json_then_bad_utf8", b"[1]\xff"),
 	("hand.json_then_bad_utf8", b"{\"a\":1}\n\xc3"),
 	("hand.bad_utf8", b"a: \xff\n"),
+	// JSON behind a long run of whitespace (longer than any fixed peek)
+	("hand.json_ws40_object", b"                                        {\"a\": 1}\n"),
+	("hand.json_ws40_two", b"\n\n\n\n\n\n\n\n\n\n\n\n\n\n\n\n\n\n\n\n\n\n\n\n\n\n\n\n\n\n\n\n\n\n\n\n\n\n\n\n[1]\n[2]\n"),
+	("hand.json_ws33_scalars", b"\t\t\t\t\t\t\t\t\t\t\t\t\t\t\t\t\t\t\t\t\t\t\t\t\t\t\t\t\t\t\t\t\t17 18"),
+	("hand.json_ws31_object", b"                               {\"a\": 1}"),
+	("hand.json_ws32_object", b"                                {\"a\": 1}"),
+	("hand.json_ws70_array", b"                                                                      [true, null]"),
+	// YAML in UTF-16 / UTF-32 with a byte order mark, and without one but not ASCII
+	("hand.utf16le_bom", b"\xff\xfea\x00:\x00 \x001\x00\n\x00"),
+	("hand.utf16be_bom_seq", b"\xfe\xff\x00-\x00 \x00\xe9\x00\n"),
+	("hand.utf16le_nonascii", b"k\x00:\x00 \x00\xe9\x00\xac\x20\n\x00"),
+	("hand.utf32le_bom", b"\xff\xfe\x00\x00a\x00\x00\x00:\x00\x00\x00 \x00\x00\x001\x00\x00\x00\n\x00\x00\x00"),
+	("hand.utf32be_nonascii", b"\x00\x00\x00-\x00\x00\x00 \x00\x00\x20\xac\x00\x00\x00\n"),
+	// TOML that is also the start of something else
+	("hand.toml_table_header", b"[package]\n"),
+	("hand.toml_table_header", b"[[bin]]\n"),
+	("hand.toml_table_header", b"# c\n[profile.release]\n"),
 ];
 
 /// The corpus of C09: valid single- and multi-document inputs of all four
